@@ -9,7 +9,8 @@ PROP = dict(
     coq_targets=["Crypto/EcdsaToy.vo"],
     quick_shards=16,
     theorems=["C17_sign_recover", "C17_sign_verify", "C17_normalised", "C17_binding", "C17_message_plus_n",
-              "C17_recover_verify", "C17_normalising_recover_same_on_low_s", "C17_other_message_refuted"],
+              "C17_recover_verify", "C17_normalising_recover_same_on_low_s", "C17_other_message_refuted",
+              "C17_vm_outcome_independent_of_err", "C17_vm_reports_library"],
     open_statements=[
         "C17_other_message_full_statement (a signature fails to recover the signer's key for ANY other 32-byte message) is REFUTED: "
         "C17_other_message_refuted, m' = m + n (known finding F6, classes message-plus-n-same-key / r1-message-plus-n-same-key; inherent to ECDSA, the digest enters only modulo n). Proved instead: C17_binding (same key => messages congruent mod n)",
@@ -17,8 +18,10 @@ PROP = dict(
         "and x(kG) >= n (on the last the Rust code would hit `expect(\"reduced-x recovery ids are never generated\")`; probability ~2^-128, no witness known)",
         "Ed25519: verification is an oracle (ed25519-dalek verify_strict IS the reference); only the implementation-level oracle checks fuel_crypto::ed25519::verify "
         "against it on valid / mutated / small-order / non-canonical inputs. An executable RFC 8032 model (needs SHA-512) is a growth item",
-        "VM instructions ECK1 / ECR1 / ED19: checked against the library results by the implementation-level oracle on a real interpreter ($err and the 64 output bytes, "
-        "zeroed on failure); no Coq model of the handlers (they are 10-line wrappers)",
+        "VM instructions ECK1 / ECR1 / ED19: Crypto/VmCryptoModel.v models only the handlers' set_err / clear_err / write-output logic with the library call as an oracle "
+        "(C17_vm_outcome_independent_of_err, C17_vm_reports_library); it is tied to the real interpreter by multi-instruction scripts (every ordered pair of failing / succeeding "
+        "ECK1, ECR1, ED19 and $err pre-set by another instruction, plus random longer sequences; $err and the 64 output bytes logged after each op). Memory ownership checks, "
+        "gas and the ED19 msg_len = 0 rule are outside this model (oracle only)",
         "secp256r1: covered by the same abstract theorems (rules_p256 satisfies accepts_low_s); p256 rule set tied by differential run against the p256 crate",
     ],
     translators=[],
@@ -31,14 +34,18 @@ PROP = dict(
     rule=("secp256k1: sign with the public API for random / boundary keys and messages (random, SHA-256 digests, small integers); check normalisation, recover = signer, "
           "verify ok, also on the k256 back-end; other messages (random, one bit changed, m +- n) must not recover the signer; all 512 single-bit flips of some signatures. "
           "secp256r1: sign_prehashed -> recover round trips, other messages, malformed signatures against the p256 crate used directly. Ed25519: valid, bit-flipped (sig / key / msg), "
-          "S+L, small-order keys and R, random inputs vs verify_strict. VM: ECK1 / ECR1 / ED19 scripts on MemoryClient with the same inputs. Model cases: sign consistency "
+          "S+L, small-order keys and R, random inputs vs verify_strict. VM: ECK1 / ECR1 / ED19 scripts on MemoryClient with the same inputs, single and in SEQUENCES inside one script "
+          "(all 42 ordered pairs first in {failing ECK1/ECR1/ED19, $err pre-set by DIV-by-zero under F_UNSAFEMATH, succeeding ECK1/ECR1/ED19} x second in {succeeding/failing ECK1/ECR1/ED19}, "
+          "random sequences of 3-7 ops): after every op $err = 0 iff the library call on that op's inputs succeeds and the output is the key / 64 zero bytes, whatever came before "
+          "(classes vm-crypto-instruction-err-flag-depends-on-history, vm-crypto-instruction-output-depends-on-history). Model cases: the sequences (handler model fed with the library results), sign consistency "
           "(recover(sig) = d.G computed by the model, low s), public keys, recover on malformed inputs, the F6 pair, r1 recover, remove_recovery_id. "
           "distinct = (kind, inputs); non-trivial = group computation reached"),
     level_text=("Machine-checked proof (Coq) over an abstract prime-order group: for every key, message and valid nonce the produced 64-byte signature is normalised "
                 "(s <= n/2 < 2^255, so the parity bit position is free and decode(encode) is the identity), recovers exactly d.G and verifies against it under the rule sets of "
                 "all three back-ends; a recovered key always satisfies textbook ECDSA validity; the same key for two messages forces the messages to be congruent mod n, "
                 "and m + n is indistinguishable from m (concrete refutation of the unqualified 'any other message' clause, F6). Tied to the Rust code by a differential run"),
-    level_note=("Partial: Ed25519 and the VM-instruction halves are implementation-level oracle only (libraries are the reference); RFC 6979 nonces not modelled; group laws, "
+    level_note=("Partial: Ed25519 is implementation-level oracle only (the library is the reference); the VM-instruction half has a Coq model of the handlers' flag/output logic only "
+                "(library result as oracle), tied by single-op and multi-op scripts on the real interpreter; RFC 6979 nonces not modelled; group laws, "
                 "primality of n are premises. Known findings replayed on every run (inherent to ECDSA, F6): message-plus-n-same-key, r1-message-plus-n-same-key."),
     technique="Coq proof over an abstract group + differential run (public API, both k1 back-ends, p256, ed25519-dalek, real interpreter) vs executable model",
     design_ref="6/C17",
